@@ -120,10 +120,12 @@ static std::string division_case(const Args& a, long i) {
     auto& S = verif::get(); S.rng_seed = rng_seed; S.sched_point = sched_point;
     const double lmin = 7.5e-7; local_mesh_refiner lmr(lmin, 3 * lmin, g.coin()); int n = g.range(2, 12); int nready = g.range(1, n);
     auto ct = std::make_shared<cell_type_parameters>(tis::base_type(0, g, 1e-16));
+    // the daughters draw a growth rate and a division volume: none, one or both of the two distributions have a spread
+    { const int sp = g.range(0, 3); ct->avg_growth_rate_ = 1e-12 * g.uni(0.5, 2); ct->std_growth_rate_ = (sp & 1) ? 0.2 * ct->avg_growth_rate_ : 0.0; ct->avg_division_vol_ = 6e-16 * g.uni(0.8, 1.2); ct->std_division_vol_ = (sp & 2) ? 0.1 * ct->avg_division_vol_ : 0.0; }
     std::vector<gen::TriMesh> meshes; std::vector<char> ready(n, 0); for (int k = 0; k < nready; k++) ready[k] = 1; for (int k = n - 1; k > 0; k--) std::swap(ready[k], ready[g.u64() % (k + 1)]);
     for (int k = 0; k < n; k++) { double r = 4.2e-6 * g.uni(0.9, 1.3); gen::TriMesh m = tis::sphere(r, k * 5 * r, 0, 0, g); if (g.coin(0.4)) gen::scale(m, 1, g.uni(0.7, 1), 1); meshes.push_back(m); }
     auto build = [&]() { std::vector<cell_ptr> L; for (int k = 0; k < n; k++) { cell_ptr p; if (ready[k]) p = gen::make_cell<ready_cell>(meshes[k], (unsigned)k, ct); else p = gen::make_cell<epithelial_cell>(meshes[k], (unsigned)k, ct); p->set_local_id((unsigned)k); L.push_back(p); } return L; };
-    auto fps = [&](const std::vector<cell_ptr>& L) { std::vector<uint64_t> v; for (auto& p : L) v.push_back(rmu::fingerprint(*p, false)); std::sort(v.begin(), v.end()); return v; };
+    auto fps = [&](const std::vector<cell_ptr>& L) { std::vector<uint64_t> v; for (auto& p : L) v.push_back(hash_combine(rmu::fingerprint(*p, false), hash_combine(hash_double(p->get_growth_rate()), hash_double(p->get_division_volume())))); std::sort(v.begin(), v.end()); return v; };
     uint64_t base = hash_combine(a.seed, (uint64_t)i);
     // reference: one after another (single thread)
     omp_set_num_threads(1); rng_reset(base); sched_reset(0, false); verif::rng_context() = 0; std::vector<cell_ptr> Ls = build(); unsigned ids = (unsigned)n; cell_divider::run(Ls, lmin, lmr, ids, false);
